@@ -70,7 +70,9 @@ class Ctx:
         self.notes = {}
         self.t0 = time.time()
         self._case_counter = 0
-        self.deadline = None
+        self.deadline = None          # wall-clock watchdog of the budget
+        self.cpu_budget = None        # the budget itself: CPU seconds
+        self.cpu0 = time.process_time()
         self.resume_after = None      # skip cases up to and including this id
         self._resuming = False
         self.progress_path = None
@@ -122,9 +124,18 @@ class Ctx:
         return np.random.default_rng(ks)
 
     def time_left(self):
+        """Budget of the time-limited workload families.  It is counted in
+        CPU seconds of this process, so that the amount of work done - and
+        with it every coverage counter - does not depend on how loaded the
+        machine is; a generous wall-clock watchdog (a multiple of the budget,
+        well inside the run's timeout) ends the families on a machine that
+        gives the process almost no CPU."""
         if self.deadline is None:
             return 1e9
-        return self.deadline - time.time()
+        wall = self.deadline - time.time()
+        if self.cpu_budget is None:
+            return wall
+        return min(wall, self.cpu_budget - (time.process_time() - self.cpu0))
 
     # -- counters ---------------------------------------------------------
     def evals(self, n=1):
